@@ -449,6 +449,7 @@ inductive Step where
   | mutate (i : Nat) (k : PStr) (op : ListOp)                  -- tag_i[k].<op>(…)
   | set (i : Nat) (k : Key) (v : PyVal)                        -- tag_i[k] = v
   | del (i : Nat) (k : PStr)                                   -- del tag_i[k]
+  | ctor (i : Nat) (isXml : Bool)                              -- Tag(name=tag_i.name, attrs=tag_i.attrs, is_xml=…)
 
 /-- `copy.copy(tag)` = `Tag.copy_self` (element.py:1800-1836). First a builder-less `Tag(None, None, name, …,
     self.attrs, is_xml=self._is_xml)` is made — its attribute pass (an HTML/XML container) only matters if it raises —
@@ -474,6 +475,11 @@ def histStep (maxDigits : Nat) (lower : PStr → PStr) (b : BuilderCfg) (st : Hi
   | .set i k v =>
     match st[i]? with
     | some (_, t) => (tagSet maxDigits t k v).bind fun t' => .ok (modifyAt st i (fun p => (p.1, t')))
+    | Option.none => .ok st
+  | .ctor i isXml =>
+    match st[i]? with
+    | some (n, t) =>
+      (tagInit maxDigits lower Option.none isXml n (some (t.cls, t.items))).bind fun t' => .ok (st ++ [(n, t')])
     | Option.none => .ok st
   | .del i k => .ok (modifyAt st i (fun p => (p.1, { p.2 with items := dictDel p.2.items k })))
 
